@@ -10,6 +10,8 @@ F = 'pl/farm.py'
 
 MUTANTS = {
     'C01': [
+        dict(name='purge-forgets-inflight-dependents', file=S, old="    if executing and not failed:\n", new="    if False:\n"),
+        dict(name='in-flight-ignores-farm-queues', file=F, old="        for m in _cluster + _cloud + _reject + _repeat\n", new="        for m in _reject + _repeat\n"),
         dict(name='release-filter-ignores-executing-ancestors', file=S,
              old="                        target in dependency.get('todo')\n                        or target in dependency.get('doing')\n",
              new="                        target in dependency.get('todo')\n"),
@@ -30,6 +32,7 @@ MUTANTS = {
              new="                dawgie.pl.schedule.update(msg.values[:2], job, msg.runid)\n"),
     ],
     'C03': [
+        dict(name='purge-forgets-inflight-dependents', file=S, old="    if executing and not failed:\n", new="    if False:\n"),
         dict(name='dispatch-keeps-do', file=F, old="            j.get('do').clear()\n", new="            pass\n"),
         dict(name='res-keeps-busy-entry', file=F,
              old="        while 0 < _busy.count(done):\n            _busy.remove(done)\n", new="        while False:\n            _busy.remove(done)\n"),
@@ -46,7 +49,7 @@ MUTANTS = {
     ],
     'C05': [
         dict(name='purge-does-not-recurse', file=S,
-             old="    for child in node:\n        purge(child, target)\n    return\n", new="    return\n"),
+             old="    for child in node:\n        purge(child, target, False)\n    return\n", new="    return\n"),
         dict(name='purge-removes-all-targets', file=S,
              old="    if target in node.get('todo', []):\n        node.get('todo').remove(target)\n",
              new="    if target in node.get('todo', []):\n        node.get('todo').clear()\n"),
